@@ -40,8 +40,9 @@ def gen_storage_prog(rng, n, wellformed=True):
         have = sorted(m)
         if r < 0.35 or not have:
             v[0] += 1
-            ops.append(['s_save', 0, k, v[0]])
-            m[k] = v[0]
+            val = 6000 if rng.random() < 0.1 else v[0]      # code 6000: the integer 0 (false in a boolean context)
+            ops.append(['s_save', 0, k, val])
+            m[k] = val
         elif r < 0.6:
             k = rng.choice(have) if wellformed or rng.random() < 0.7 else k
             ops.append(['s_load', 0, k])
